@@ -465,8 +465,14 @@ func (ex *Exec) byContract(fr *Frame, st *State, ci *ssa.Call, ct *Contract, key
 	}
 	cpre := &SCtx{ex: ex, pkg: pkg, env: env, cur: st, old: nil}
 	for i, c := range ct.Requires {
-		g := cpre.bool(c.Expr)
-		ex.oblige(st, "pre", fmt.Sprintf("pre[%s]@call[%s:%s]", clauseLabel(c, i), short, ord), g, c.Tags, pos, "requires "+c.Text)
+		cj := cpre.conjuncts(c.Expr)
+		for j, x := range cj {
+			nm := fmt.Sprintf("pre[%s]@call[%s:%s]", clauseLabel(c, i), short, ord)
+			if len(cj) > 1 {
+				nm = fmt.Sprintf("pre[%s.%d]@call[%s:%s]", clauseLabel(c, i), j+1, short, ord)
+			}
+			ex.oblige(st, "pre", nm, x.T, c.Tags, pos, "requires "+x.Text)
+		}
 	}
 	old := st.Clone()
 	if ct.HasModifies {
@@ -542,9 +548,53 @@ func (ex *Exec) covered(o *Obj, key string) bool {
 	return false
 }
 
+// reachableFrom reports whether o is reachable from root through the pointer
+// structure of the entry state.
 func (ex *Exec) reachableFrom(root, o *Obj) bool {
-	// conservative: deep entries cover everything (precise reachability would need the entry heap)
-	return true
+	if ex.reach == nil {
+		ex.reach = map[*Obj]map[*Obj]bool{}
+	}
+	set, ok := ex.reach[root]
+	if !ok {
+		set = map[*Obj]bool{}
+		ex.reach[root] = set
+		base := NewState()
+		ex.inEntry++
+		var visit func(v *Val)
+		var visitObj func(x *Obj)
+		visitObj = func(x *Obj) {
+			if set[x] {
+				return
+			}
+			set[x] = true
+			for _, lf := range ex.objLeaves(x) {
+				if strings.Contains(lf.key, "[*]") {
+					continue
+				}
+				switch under(lf.typ).(type) {
+				case *types.Pointer, *types.Slice, *types.Interface:
+					if isErrorType(lf.typ) {
+						continue
+					}
+					visit(ex.lookupCell(base, x, lf.key, lf.typ, false))
+				}
+			}
+		}
+		visit = func(v *Val) {
+			if v == nil {
+				return
+			}
+			for _, t := range v.Tg {
+				visitObj(t.Loc.Obj)
+			}
+			for _, pv := range v.Cases {
+				visit(pv)
+			}
+		}
+		visitObj(root)
+		ex.inEntry--
+	}
+	return set[o]
 }
 
 func (ex *Exec) checkFrame(fr *Frame, st *State, p *Val, in ssa.Instruction) {
@@ -583,10 +633,7 @@ func (ex *Exec) coveredDeep(o *Obj) bool {
 		return true
 	}
 	for _, m := range ex.rootMods {
-		if m.deep && m.obj == o {
-			return true
-		}
-		if m.obj == o && m.prefix == "" {
+		if m.deep && ex.reachableFrom(m.obj, o) {
 			return true
 		}
 	}
